@@ -33,12 +33,28 @@ class SearchMatchesAnyTerm:
     opts = {"returns": "bool"}
 
 
+@contract("yamlpath.common.searches.Searches.search_matches", props=["C15", "C13"])
+class SearchMatchesAnyNeedle:
+    """The keyword scans (max / min) pass a DOCUMENT VALUE as the term: for any term of any type the only exception
+    is still YAMLPathException -- for the comparison operators; the text operators (^ $ % =~) need a text term.
+    (No functional clause: the statement of C12 speaks about text terms.)"""
+    params = {"method": "PathSearchMethods"}
+    requires = ["isinstance(needle, str) or method is PathSearchMethods.EQUALS or method is PathSearchMethods.LESS_THAN "
+                "or method is PathSearchMethods.GREATER_THAN or method is PathSearchMethods.LESS_THAN_OR_EQUAL "
+                "or method is PathSearchMethods.GREATER_THAN_OR_EQUAL"]
+    raises = ["YAMLPathException"]
+    opts = {"returns": "bool"}
+
+
 @contract("yamlpath.common.searches.Searches.search_matches", props=["C12", "C15"])
 class SearchMatchesCall:
-    """The face of search_matches that its 27 call sites use: a deterministic bool for a str term, the only
-    exception being YAMLPathException (invalid regular expression).  Implied by SearchMatchesAnyTerm (verified
+    """The face of search_matches that its call sites use: a deterministic bool for a term of any type, the only
+    exception being YAMLPathException (invalid regular expression).  Implied by SearchMatchesAnyNeedle (verified
     against the body); kept separate so that callers' verification conditions stay small."""
-    params = {"method": "PathSearchMethods", "needle": "str"}
+    params = {"method": "PathSearchMethods"}
+    requires = ["isinstance(needle, str) or method is PathSearchMethods.EQUALS or method is PathSearchMethods.LESS_THAN "
+                "or method is PathSearchMethods.GREATER_THAN or method is PathSearchMethods.LESS_THAN_OR_EQUAL "
+                "or method is PathSearchMethods.GREATER_THAN_OR_EQUAL"]
     raises = ["YAMLPathException"]
     opts = {"callsite": True, "returns": "bool", "pure": True}
 
